@@ -20,8 +20,19 @@ Coverage table (statement clause / quantifier dimension -> where it is explored 
   dry-run is the default, mutates nothing   Flags {absent,true,false} x 11 command-line spellings (bare, =1/=T/=0/=False, repeated
                                             flags, last one wins); every observation before/after      -> env-var / config-file
                                             ways of setting dry-run are not driven (the code reads none)
-  only on a clean work tree                 Touch {modified, staged, untracked, deleted} (+ ignored = clean in thorough)
-                                            -> submodules, linked worktrees, mode-only and CRLF changes are absent
+  only on a clean work tree                 Touch over the work-tree states of spec/TaggerWorktree.tla (HEAD / index / work-tree entry per
+                                            path over a clean remainder; status and "clean iff git status prints nothing" COMPUTED in
+                                            TLA+): content (unstaged, staged, staged+edited, staged+reverted, same size + old mtime),
+                                            mode only (chmod +x / -x, staged, index-only via update-index --chmod, file replaced by a
+                                            same-content file of another mode), deletion (unstaged, staged, rm --cached), rename (git mv /
+                                            mv), untracked (file, in a new directory), staged new file, symlink retarget, type change
+                                            (file->symlink unstaged/staged, symlink->file with the same blob), CLEAN states (ignored
+                                            file / directory, rewritten or touched file, empty directory) and combinations; the real
+                                            `git status` is the independent oracle for every state (class + gitclean, also judged by
+                                            TaggerTrace.tla); every state meets a real invocation with a newer version whatever the
+                                            budget; 4 states at any point of a history, the others as its first step
+                                            -> submodules, linked worktrees, CRLF / filters, core.fileMode=false, intent-to-add,
+                                            unmerged entries, global excludes and .git/info/exclude are absent
   strictly greater than every existing      NameTable x ReqTable: release / pre-release (alpha.2 < alpha.10 < rc.1 < release), build
   FULL semver tag of the same major         metadata, v-less, two-part, major-only, leading zero, other majors, non-version and
                                             hierarchical names; tags lightweight / annotated / on a tree object / sharing another
@@ -53,6 +64,7 @@ import hashlib
 import json
 import os
 import re
+import shlex
 import shutil
 import subprocess
 import sys
@@ -185,9 +197,17 @@ class Templates:
         git(repo, e, "config", "user.email", "verif@example.com")
         git(repo, e, "config", "commit.gpgsign", "false")
         git(repo, e, "config", "tag.gpgsign", "false")
-        for f in ("f.txt", "m.txt", "s.txt", "d1.txt", "d2.txt", "d3.txt", "log.txt"):
-            (repo / f).write_text(f"content of {f}\n")
+        (repo / "log.txt").write_text("content of log.txt\n")
         (repo / ".gitignore").write_text("*.log\n")
+        # the tracked paths the work-tree states of spec/TaggerWorktree.tla are about (WtBase), once per generation
+        # directory: the N-th Touch of a history works in g<N>/ (an earlier one may have been committed)
+        if not WT["base"]:
+            raise MachineryError("work-tree table (TABLE.wt / replay file) not loaded before the templates are made")
+        sh = [c for g in range(GENERATIONS) for pth, ent in sorted(WT["base"].items())
+              for c in sh_put(f"g{g}/{pth}", ent, "replace", None)]
+        p = subprocess.run(["sh", "-c", "set -e\n" + "\n".join(sh)], cwd=repo, env=e, capture_output=True, text=True)
+        if p.returncode != 0:
+            raise MachineryError(f"template: cannot create the generation directories: {p.stderr[-300:]}")
         if version != "<missing>":
             # viper searches "." before "../" (root.go:31-32): in layout "both" the tracked file in the work tree is
             # the requested version and the one in the parent directory is a decoy that must never be read
@@ -233,7 +253,7 @@ class Repo:
         self.env = env
         self.commits = dict(c1)  # sha -> index (1 <- 2 main, 1 <- 3 side)
         self.ids = {}           # tag object oid -> serial
-        self.nu = 0
+        self.ntouch = 0         # Touch steps so far (selects the generation directory)
         self.packed = packed
 
     def g(self, *a, ok=True):
@@ -326,8 +346,10 @@ git fsck --no-dangling --connectivity-only 2>&1
         other_struct = {"refs": sorted(others), "head_sym": head_sym, "status": entries, "remote": remote,
                         "tree": tree, "config": cfgh, "env": envs, "siblings": extra}
         other = hashlib.sha256(json.dumps(other_struct, sort_keys=True).encode()).hexdigest()[:20]
-        return {"tags": tags, "head": self.commits.get(head_oid, 99), "dirty": classify(entries), "other": other,
-                "_raw": raw, "_other": other_struct, "_head_oid": head_oid}
+        # git's own verdict (nothing but ignored paths listed), recorded independently of the class matching
+        gitclean = all(x.startswith("! ") for x in entries)
+        return {"tags": tags, "head": self.commits.get(head_oid, 99), "dirty": classify(entries), "gitclean": gitclean,
+                "other": other, "_raw": raw, "_other": other_struct, "_head_oid": head_oid}
 
 
 def _packed_anomalies(self):
@@ -355,23 +377,112 @@ def _packed_anomalies(self):
 Repo.packed_anomalies = _packed_anomalies
 
 
+GENERATIONS = 4
+# spec/TaggerWorktree.tla as exported by TLC (TABLE.wt, or the copy inside a replay file): base = tracked paths of every
+# generation directory, classes = status set (as computed in TLA+) -> name of the observation class
+WT = {"base": {}, "classes": {}, "table": None}
+
+
+def load_wt(table):
+    WT["table"] = table
+    WT["base"] = dict(table["base"])
+    WT["classes"] = {}
+    for name, k in table["kinds"].items():
+        key = frozenset((e["a"], e["c"], e["p"], e["o"]) for e in k["status"])
+        if k["class"] == name:
+            if key in WT["classes"]:
+                raise MachineryError(f"work-tree table: classes {name} and {WT['classes'][key]} have the same status")
+            WT["classes"][key] = name
+    for name, k in table["kinds"].items():
+        key = frozenset((e["a"], e["c"], e["p"], e["o"]) for e in k["status"])
+        if WT["classes"].get(key) != k["class"]:
+            raise MachineryError(f"work-tree table: class of {name} is inconsistent")
+
+
+def status_set(entries):
+    """`git status --porcelain=v2` lines -> the entry set in the vocabulary of TaggerWorktree.tla (staged column /
+    work-tree column per path, exact renames, `?`, `!`); paths relative to their generation directory."""
+    def norm(p):
+        return re.sub(r"^g\d+/", "", p)
+    out = set()
+    for e in entries:
+        if e[:2] in ("? ", "! "):
+            out.add(("w", e[0], norm(e[2:]), ""))
+        elif e.startswith("1 "):
+            f = e.split(" ", 8)
+            if f[1][0] != ".":
+                out.add(("s", f[1][0], norm(f[8]), ""))
+            if f[1][1] != ".":
+                out.add(("w", f[1][1], norm(f[8]), ""))
+        elif e.startswith("2 "):
+            f = e.split(" ", 9)
+            new, _, old = f[9].partition("\t")
+            out.add(("s", f[1][0], norm(new), norm(old)))
+            if f[1][1] != ".":
+                out.add(("w", f[1][1], norm(new), ""))
+        else:
+            out.add(("?", e[:12], "", ""))
+    return frozenset(out)
+
+
 def classify(entries):
-    if not entries:
-        return "clean"
-    if all(e.startswith("! ") for e in entries):
-        return "ignored"
-    real = [e for e in entries if not e.startswith("! ")]
-    if len(real) == 1:
-        e = real[0]
-        if e.startswith("? "):
-            return "untracked"
-        if e.startswith("1 .M "):
-            return "modified"
-        if e.startswith("1 M. "):
-            return "staged"
-        if e.startswith("1 .D "):
-            return "deleted"
-    return "unknown:" + "|".join(e[:12] for e in real)
+    """name of the work-tree class whose status, COMPUTED IN TLA+, is what git printed"""
+    st = status_set(entries)
+    c = WT["classes"].get(st)
+    return c if c is not None else "unknown:" + "|".join(sorted(" ".join(x) for x in st))[:200]
+
+
+def sh_put(path, e, how, old):
+    """shell commands that make work-tree `path` the entry `e` of TaggerWorktree.tla (old = what is there now)"""
+    q = shlex.quote(path)
+    for x in (path, e["c"]):
+        if not re.fullmatch(r"[A-Za-z0-9 ._,+#!/-]*", x):
+            raise MachineryError(f"work-tree entry {x!r} outside the harness' safe alphabet")
+    if how == "touch":
+        return [f"touch -d '2001-01-01 00:00:00' {q}"]
+    t = e["t"]
+    if t == "none":
+        return [f"rm -rf {q}"]
+    if t == "dir":
+        return [f"rm -rf {q}", f"mkdir -p {q}"]
+    mk = f"mkdir -p {shlex.quote(os.path.dirname(path) or '.')}"
+    if t == "link":
+        return [f"rm -rf {q}", mk, f"ln -s {shlex.quote(e['c'])} {q}"]
+    if t != "file":
+        raise MachineryError(f"unknown entry type {t}")
+    wr = f"printf '%s{chr(92) + 'n' if e['nl'] else ''}' {shlex.quote(e['c'])} > {q}"
+    ch = f"chmod {'755' if e['x'] else '644'} {q}"
+    if how == "keepmtime":
+        if not old or old["t"] != "file" or len(old["c"]) != len(e["c"]) or old["nl"] != e["nl"]:
+            raise MachineryError("keepmtime needs a regular file and content of the same size")
+        return [f'S=$(stat -c %y {q}) && {wr} && touch -d "$S" {q}', ch]
+    if how != "replace" and old and old["t"] == "file":       # same inode
+        return ([wr] if (old["c"], old["nl"]) != (e["c"], e["nl"]) else []) + [ch]
+    return [f"rm -rf {q}", mk, wr, ch]
+
+
+def touch_commands(paths, gen):
+    """The work-tree state of a Touch step (path records h / i / w exported by TLA+) as shell commands."""
+    cmds = []
+    for r in sorted(paths, key=lambda r: r["p"]):
+        path = f"g{gen}/{r['p']}"
+        q = shlex.quote(path)
+        h, i, w, how = r["h"], r["i"], r["w"], r["how"]
+        cur = h
+        if i != h:
+            if how == "plumbing":
+                if h["t"] != "file" or dict(h, x=i["x"]) != i:
+                    raise MachineryError(f"plumbing concretisation only for mode-only index changes: {r}")
+                cmds.append(f"git update-index --chmod={'+x' if i['x'] else '-x'} -- {q}")
+            elif i["t"] == "none":
+                cmds.append(f"git rm -q --cached -- {q}")
+            else:
+                cmds += sh_put(path, i, "inplace", cur)
+                cmds.append(f"git add -f -- {q}")
+                cur = i
+        if w != cur or how in ("replace", "touch"):
+            cmds += sh_put(path, w, how, cur)
+    return cmds
 
 
 def pub(o):
@@ -449,26 +560,12 @@ def replay(case, ci, tmpl, tools, workdir, variant):
             ev = {"op": "branch", "name": op["name"], "where": op["where"]}
         elif kind == "touch":
             k = op["kind"]
-            if k == "modified":
-                with open(r.repo / "m.txt", "a") as f:
-                    f.write("local change\n")
-            elif k == "staged":
-                with open(r.repo / "s.txt", "a") as f:
-                    f.write("staged change\n")
-                pre.append("git add s.txt")
-            elif k == "untracked":
-                r.nu += 1
-                (r.repo / f"u{r.nu}.txt").write_text("new file\n")
-            elif k == "deleted":
-                victims = [f for f in ("d1.txt", "d2.txt", "d3.txt") if (r.repo / f).exists()]
-                if not victims:
-                    raise MachineryError(f"case {ci}: no tracked file left to delete")
-                os.unlink(r.repo / victims[0])
-            elif k == "ignored":
-                r.nu += 1
-                (r.repo / f"x{r.nu}.log").write_text("ignored by .gitignore\n")
-            else:
-                raise MachineryError(f"unknown touch kind {k}")
+            if r.ntouch >= GENERATIONS:
+                raise MachineryError(f"case {ci}: more than {GENERATIONS} Touch steps in one history")
+            if op["base"] != WT["base"]:
+                raise MachineryError(f"case {ci}: the Touch step was exported for another WtBase than the templates were made from")
+            pre += touch_commands(op["paths"], r.ntouch)
+            r.ntouch += 1
             ev = {"op": "touch", "kind": k}
         elif kind == "bump":
             if layout != "parent":
@@ -516,7 +613,12 @@ def replay(case, ci, tmpl, tools, workdir, variant):
         events.append(ev)
         if kind != "run":
             if o["dirty"].startswith("unknown"):
-                raise MachineryError(f"case {ci}: unexpected work-tree status after {op}: {o['dirty']}")
+                raise MachineryError(f"case {ci}: unexpected work-tree status after {op.get('op')} {op.get('kind', '')}: {o['dirty']}")
+            if kind == "touch" and synced and (o["dirty"] != op["class"] or o["gitclean"] != op["clean"]):
+                # the independent oracle (the real git binary) against the classification computed in TaggerWorktree.tla
+                raise MachineryError(f"case {ci}: git disagrees with spec/TaggerWorktree.tla about work-tree state {op['kind']}: "
+                                     f"git status -> class {o['dirty']}, clean={o['gitclean']}; TLA+ -> class {op['class']}, "
+                                     f"clean={op['clean']}; status {o['_other']['status']}")
             continue
         # ------------------------------------------------------------ judge the invocation (allowed set from TLA+)
         stats["runs"] += 1
@@ -574,14 +676,14 @@ def replay(case, ci, tmpl, tools, workdir, variant):
         elif op["flag"] != "false":
             why = "dry-run-mutates"
         elif not op["gates"]:
-            why = "tagged-dirty-tree" if pre["dirty"] not in ("clean", "ignored") else "tagged-not-newer"
+            why = "tagged-dirty-tree" if not op["clean"] else "tagged-not-newer"
         else:
             why = "wrong-refs"
         diff = {n: {"before": before["_raw"].get(n), "after": o["_raw"].get(n)}
                 for n in sorted(set(before["_raw"]) | set(o["_raw"])) if before["_raw"].get(n) != o["_raw"].get(n)}
         frame_diff = {k: {"before": before["_other"].get(k), "after": o["_other"][k]} for k in o["_other"]
                       if o["_other"][k] != before["_other"].get(k)}
-        verdicts.append({"sig": {"kind": why, "flag": op["flag"], "dirty": pre["dirty"], "exit": exit_class,
+        verdicts.append({"sig": {"kind": why, "flag": op["flag"], "dirty": pre["dirty"], "wt": op["wt"], "exit": exit_class,
                                  "permitted": op["permitted"], "packed": packed, "moved_tag": "+".join(moved) or "none"},
                          "detail": {"case": ci, "step": si, "version": version, "initial_version": case["version"], "layout": layout, "packed": packed,
                                     "history": [{k: v for k, v in x.items() if k in ("op", "name", "kind", "c", "flag", "version", "src", "where")}
@@ -590,7 +692,7 @@ def replay(case, ci, tmpl, tools, workdir, variant):
                                     "observed_after": pub(o), "exit_code": log[-1]["code"], "ref_changes": diff,
                                     "frame_changes": frame_diff, "head_before": before["_head_oid"],
                                     "head_after": o["_head_oid"], "tool": log[-1],
-                                    "case_export": case, "variant": [layout, packed]}})
+                                    "case_export": case, "variant": [layout, packed], "wt_table": WT["table"]}})
         break           # convicted: the rest of the scripted history no longer describes this repository
     shutil.rmtree(root, ignore_errors=True)
     return {"events": events, "verdicts": verdicts, "drift": drift, "stats": stats, "log": log,
@@ -677,6 +779,7 @@ def run_replay(ctx, path):
     try:
         rec = json.loads(open(path).read())
         case, variant = rec["detail"]["case_export"], tuple(rec["detail"]["variant"])
+        load_wt(rec["detail"]["wt_table"])
     except (OSError, ValueError, KeyError) as ex:
         raise MachineryError(f"cannot read replay file {path}: {ex}")
     tools = ctx.tools_bin()
@@ -721,10 +824,11 @@ def run(ctx):
     if len(tables) != 1:
         raise MachineryError(f"expected one TABLE line, got {len(tables)}")
     n_table = check_tables(ctx, tables[0])
+    load_wt(tables[0]["wt"])
     cases = exported_cases(r)
     if len(cases) < 500:
         raise MachineryError(f"too few exported invocations ({len(cases)}): vacuous")
-    vacuity(cases)
+    vacuity(cases, tables[0]["wt"])
     if thorough:
         w = ctx.tlc("TaggerMC", "Tagger_cover.cfg", workers=4, timeout=600, coverage=True, count=False)
         if not w.ok:
@@ -785,6 +889,16 @@ def run(ctx):
             if o.get("flag") == "false" and o["pre"]["dirty"] == "clean" and len(same) == 1:
                 (n, rec), = same.items()
                 pivots.setdefault((cases[i]["version"], n, rec["k"], rec["shared"]), i)
+        # work-tree pivots: every work-tree state TLC generated meets a real (--dry-run=false) invocation whose version
+        # gate passes (only the clean-tree gate decides), and one default / dry run, whatever the budget
+        wtp = {}
+        for i in order:
+            if i >= n_bfs:
+                continue
+            o = cases[i]["ops"][-1]
+            if o.get("newer"):
+                wtp.setdefault((o["wt"], o["flag"] == "false"), i)
+        pivots.update({("wt",) + k: i for k, i in wtp.items()})
         simi = sorted(set(simi) | set(pivots.values()))
         left = max(0, budget - len(simi))
 
@@ -901,7 +1015,9 @@ def run(ctx):
         "small scope: histories up to MaxHist user-level actions over the names/versions of spec/TaggerTables.tla and TaggerMC.tla",
         "one-directional contract (the statement says 'only when'): a refusal with a non-zero status is always accepted; "
         "refusals in permitted states are counted as refused_though_permitted, not judged",
-        "an untracked, staged, modified or deleted file makes the tree dirty; a file matched by .gitignore does not",
+        "clean work tree = `git status --porcelain` prints nothing (core.fileMode=true, no filters): any staged or unstaged "
+        "content, mode, type, deletion, rename change or an untracked path makes it dirty; ignored paths, empty directories "
+        "and stat-only changes do not (spec/TaggerWorktree.tla, confirmed by the real git for every replayed state)",
         "v-less names such as 3.0.1 count as full semantic-version tags",
         "a dry run that would have tagged may exit 0; stale/invalid version or dirty tree must give a non-zero status in both modes",
         "'everything else' = non-tag refs, HEAD (symbolic and resolved), origin's refs, stash, work-tree files, git status, "
@@ -920,8 +1036,21 @@ def exported_cases(res):
     return cases
 
 
-def vacuity(cases):
+def vacuity(cases, wt):
     runs = [(c, o) for c in cases for o in c["ops"] if o["op"] == "run"]
+    kinds = wt["kinds"]
+    for d in wt["used"]:
+        if not any(o["wt"] == d and o["flag"] == "false" and o["newer"] for c, o in runs):
+            raise MachineryError(f"vacuous: work-tree state {d} never meets a real invocation with a newer version")
+    families = {"mode-only": lambda st: any(e["c"] == "M" for e in st), "type change": lambda st: any(e["c"] == "T" for e in st),
+                "rename": lambda st: any(e["c"] == "R" for e in st), "deletion": lambda st: any(e["c"] == "D" for e in st),
+                "untracked": lambda st: any(e["c"] == "?" for e in st), "added": lambda st: any(e["c"] == "A" for e in st)}
+    for fam, pred in families.items():
+        if not any(pred(kinds[d]["status"]) and not kinds[d]["clean"] for d in wt["used"]):
+            raise MachineryError(f"vacuous: no dirty work-tree state of family {fam}")
+    if not any(kinds[d]["clean"] and kinds[d]["status"] for d in wt["used"]) or \
+            not any(kinds[d]["clean"] and not kinds[d]["status"] for d in wt["used"]):
+        raise MachineryError("vacuous: no clean work-tree state other than the untouched one (ignored paths / stat-only changes)")
     last = [c["ops"][-1] for c in cases]
 
     def need(pred, what):
@@ -933,6 +1062,7 @@ def vacuity(cases):
     need(lambda c, o: o["flag"] == "false" and not o["gates"] and o["pre"]["dirty"] == "clean" and o["impl"]["exit"] == "nothing", "a stale version")
     for d in ("modified", "staged", "untracked", "deleted"):
         need(lambda c, o, d=d: o["flag"] == "false" and o["pre"]["dirty"] == d, f"a {d} work tree")
+    need(lambda c, o: o["permitted"] and o["wt"] != "clean" and o["impl"]["exit"] == "ok", "a tagging run on a clean tree that was touched")
     need(lambda c, o: o["permitted"] and any(n in model_tags(o["pre"]["tags"]) for a in o["allowed"] for n in a["fresh"]), "an existing major tag to move")
     need(lambda c, o: o["permitted"] and len(model_tags(o["pre"]["tags"])) >= 2, "unrelated tags next to a tagging run")
     need(lambda c, o: o["permitted"] and any(t["k"] == "annotated" for t in model_tags(o["pre"]["tags"]).values()), "an annotated user tag")
@@ -965,6 +1095,9 @@ def trace_canary(ctx, results, order):
     m = json.loads(json.dumps(good)); m[ri]["flag"] = "absent"; muts.append(("flag false->absent on a tagging run", m))
     m = json.loads(json.dumps(good)); m[ri]["exit"] = "nothing"; muts.append(("exit ok->nothing on a tagging run", m))
     m = json.loads(json.dumps(good)); m[ri]["obs"]["other"] = "deadbeef"; muts.append(("frame digest changed", m))
+    m = json.loads(json.dumps(good)); m[ri]["obs"]["gitclean"] = not m[ri]["obs"]["gitclean"]
+    muts.append(("git's own clean verdict contradicts the work-tree class", m))
+    m = json.loads(json.dumps(good)); m[ri]["obs"]["dirty"] = "chmod"; muts.append(("work tree left in a dirty (mode-only) state", m))
     m = json.loads(json.dumps(good))
     new = [n for n in m[ri]["obs"]["tags"] if n not in m[ri - 1]["obs"]["tags"] and "." in n]
     if len(new) != 1:
